@@ -47,6 +47,27 @@ CHECKS = {
              "run on those points and on seeded random f32 bit patterns, and every call is judged by TLC.",
         design="DESIGN.md §5 C12",
         note=TRUST + "; f32 decoding in harness/src/util.rs"),
+    "C06": dict(
+        technique="TLA+ state machine Target (depth-buffered render target over abstract fragments); TLC proves confluence "
+                  "over every history (order, partition, sort) in small scope and the painter equivalence; trace "
+                  "validation of recorded render histories against the same machine",
+        text="TLC explores every history (every partition into calls, every order, every sort setting with the sort key "
+             "left nondeterministic) of small abstract scenes and checks that the final planes are the per-pixel nearest "
+             "fragments, and that back-to-front painting over disjoint depth ranges equals the depth-buffered image; real "
+             "scenes are rendered under all permutations/partitions/sort settings and every recorded history is replayed "
+             "by TLC on the state machine fed with the observed single-triangle footprints.",
+        design="DESIGN.md §5 C06",
+        note=TRUST + "; footprints of single triangles come from the implementation"),
+    "C07": dict(
+        technique="TLA+ state machine Target with context flags and statistics; TLC checks mask/test/discard/cull/counter "
+                  "laws over all flag combinations in small scope; trace validation of recorded flag histories (planes "
+                  "and accumulated statistics after every call)",
+        text="TLC checks the flag laws of the Target machine for every context combination, order and small scene; real "
+             "histories of render calls under random flag combinations, both target kinds, both vertex orders, mirrored "
+             "viewports and both front doors are recorded (planes + statistics after each call) and validated by TLC; "
+             "facing is decided by TLC from exact lattice determinants.",
+        design="DESIGN.md §5 C07",
+        note=TRUST + "; footprints and clip piece counts of single triangles come from the implementation"),
 }
 
 NOT_YET = "check not built yet in this round (see DESIGN.md §9 for the order of work)"
